@@ -142,7 +142,8 @@ func (sc *scenario) steadyCheck() {
 // the check waits for the expected number of events (at most the hang deadline) and then compares the sequences:
 // exactly once, in order.  Posted events that were accepted must arrive too.
 func (sc *scenario) freeCheck() {
-	if !sc.c.free.Load() || sc.suspended || sc.readErrInjected || sc.paused.Load() {
+	if !sc.c.free.Load() || sc.suspended || sc.readErrInjected || sc.paused.Load() || sc.stopAfter >= 0 {
+		// (stopAfter >= 0: the consumer is still going to stop polling — `unpause` was not executed, e.g. in a shrunk line)
 		sc.tag("freecheck-skipped")
 		return
 	}
